@@ -127,7 +127,7 @@ def make_cfg(rng, Pmax, nmax, tname=None, perturb=None):
 
 def gen_cases(tier, seed):
     rng = random.Random(424242 + seed)
-    n, Pmax, nmax = (110, 8, 8) if tier == "quick" else (3000, 16, 11)
+    n, Pmax, nmax = (110, 8, 8) if tier == "quick" else (10000, 16, 11)
     cases = []
     # unperturbed driver template on a spread of grids (must be accepted)
     for (p0, p1) in [(1, 1), (1, 2), (2, 1), (2, 2), (1, 3), (3, 1), (2, 3), (3, 2), (4, 2), (2, 4)]:
